@@ -105,6 +105,14 @@ add('C19', 'exploration', 'runtime monitoring: exhaustive enumeration of the con
     'the thread of every callback is recorded; pristine subprocesses observe that no thread at all is started.',
     'Expectation table of DESIGN.md Appendix B; network sources are constructed, not started.', 'DESIGN.md#C19')
 
+add('C18', 'exploration', 'runtime monitoring on a virtual-time loop: start/stop call history vs polling cycles tagged with the run (task) performing them',
+    'Histories of start()/stop() calls placed during the poll sleep, during a backpressured emit, between items and '
+    'back-to-back, for five source kinds; run()/_run() of the source instance are wrapped from the harness so that every '
+    'polling cycle is attributed to the event-loop task performing it; oracle: an older loop never begins a cycle after a '
+    'newer one has, no cycle begins while stopped, no more runs than effective starts, items strictly increasing, '
+    'from_iterable exact and waiting for downstream.',
+    'Virtual clock; real temporary files for the file sources.', 'DESIGN.md#C18')
+
 
 def main():
     props = [json.loads(l) for l in open(os.path.join(HERE, 'properties.jsonl'))]
